@@ -39,6 +39,8 @@ pub enum StaticCase {
     HugeFan(crate::checks::hugefan::HugeFan),
     /// one irregular graph of 14-24 arguments, judged by the backtracking reference (`Fams::new_medium`)
     Medium(GraphCase),
+    /// one unattacked argument attacking all the others (arguments, attack lines in decreasing order)
+    OutHub(u32, bool),
 }
 
 /// Irregular graphs of 14-24 arguments (sparse random, cycles with chords, clusters, fans), mostly one
@@ -622,7 +624,11 @@ impl Prop for Statics {
                 split: 0,
             }));
         }
-        (v, format!("all digraphs (self-attacks included) on 0..={} labelled arguments, direct presentation; one fan of 2^20+7 attackers (grounded problems)", max))
+        if self.which != Which::C04 {
+            // one component of 2^20 + 3 arguments with an out-degree of 2^20 + 2, through the SAT-based solvers
+            v.push(StaticCase::OutHub((1 << 20) + 3, self.which == Which::C03));
+        }
+        (v, format!("all digraphs (self-attacks included) on 0..={} labelled arguments, direct presentation; one fan of 2^20+7 attackers (grounded problems); one out-degree hub of 2^20+3 arguments (SAT-based solvers)", max))
     }
 
     fn run(&self, scase: &StaticCase, rec: &mut Rec) -> CheckResult {
@@ -642,6 +648,12 @@ impl Prop for Statics {
             }
             StaticCase::Composite(cc) => return crate::checks::composite::run(self.which, cc, rec),
             StaticCase::HugeFan(h) => return crate::checks::hugefan::run_grounded(self.id(), h, rec),
+            StaticCase::OutHub(n, decreasing) => {
+                if self.which == Which::C04 {
+                    return Ok(());
+                }
+                return crate::checks::hugefan::run_out_hub(self.id(), *n, *decreasing, rec);
+            }
         };
         let g = G::new(case.g.n, &case.g.att_usize());
         let fams = if g.n > 13 {
